@@ -10,10 +10,18 @@ package event
 //@ spec has(e Event, k string) bool = e.sm.ghas[any(k)]
 //@ spec kv(e Event, k string) any = e.sm.gstore[any(k)]
 //
-// Building an event touches only the event itself (frame trusted where the options are dynamic).
+// New and Apply are five-line loops that call every (non-nil) option in order on the event; that
+// is their trusted higher-order contract (callseach): callers that pass a literal option list get
+// the effect of exactly those option closures, in order.
 //@ func New
 //@   trusted
-//@   nonnil
+//@   ensures fresh(result.sm)
+//@   callseach opts(result)
+//@   modifies nothing
+//@ func Apply
+//@   trusted
+//@   ensures result == e
+//@   callseach opts(e)
 //@   modifies nothing
 //
 //@ func (Event).Store
